@@ -1,6 +1,7 @@
 package main
 
 import (
+	"sort"
 	"strings"
 
 	"golang.org/x/tools/go/ssa"
@@ -216,6 +217,7 @@ func rulesC12(c *Ctx) {
 		"NOT decided: equality of restored and original contents for all trees, chunk sizes, orders and thread counts; that the chunk splitting covers the tree.")
 	const rule = "C12.restore"
 	verifierCore(c, "C12.verify")
+	c12KeyFormats(c)
 	const rc = "storage/mkvs/checkpoint.restoreChunk"
 	if fn := c.needFn(rule, rc); fn != nil {
 		imp := union("import{NewBatch,doRestoreChunk,Commit}", CallsTo(fn, "", "storage/mkvs/db/api.(NodeDB).NewBatch", ""), CallsTo(fn, "", "storage/mkvs/checkpoint.doRestoreChunk", ""), CallsTo(fn, "", "storage/mkvs/db/api.(Batch).Commit", ""))
@@ -487,4 +489,113 @@ func rulesC13(c *Ctx) {
 	if fn := c.needFn("C13.writelog", "storage/mkvs/db/pathbadger.(*badgerNodeDB).GetWriteLog"); fn != nil {
 		c.SuccessRequiresCond("C13.writelog", fn, "endRoot seqNo==0", `getPendingRootSeqNo\(.*\)#0 == 0$`, "the path-keyed write log can only be resolved for the root whose nodes are in the finalized set")
 	}
+}
+
+// c12KeyFormats: reader/writer agreement of the node databases' key formats.
+// A key format whose keys are decoded, iterated by prefix or deleted, but for
+// which no code path ever stores a full key, describes records that do not
+// exist: whatever the readers were meant to find (e.g. the nodes to remove when
+// a restore is aborted) is never found.
+func c12KeyFormats(c *Ctx) {
+	ix := c.P.BuildIndex()
+	n := 0
+	for _, pk := range []string{"storage/mkvs/db/badger", "storage/mkvs/db/pathbadger"} {
+		type use struct {
+			writes, reads int
+			pos           string
+		}
+		uses := map[string]*use{}
+		var order []string
+		for _, fn := range c.P.FuncsInPkg(pk) {
+			if strings.HasPrefix(fn.Name(), "migrate") || strings.Contains(fname(fn), "Migrat") || strings.Contains(fname(fn), "migrat") {
+				continue // one-off format migrations read old formats by design
+			}
+			for _, call := range callsIn(fn) {
+				nm := calleeName(call)
+				if nm != "common/keyformat.(*KeyFormat).Encode" && nm != "common/keyformat.(*KeyFormat).Decode" {
+					continue
+				}
+				a := allArgs(call)
+				ld, ok := a[0].(*ssa.UnOp)
+				if !ok {
+					continue
+				}
+				g, ok := ld.X.(*ssa.Global)
+				if !ok || short(g.Pkg.Pkg.Path()) != pk {
+					continue
+				}
+				name := pk + "." + g.Name()
+				if uses[name] == nil {
+					uses[name] = &use{pos: c.P.Pos(g.Pos())}
+					order = append(order, name)
+				}
+				if nm == "common/keyformat.(*KeyFormat).Decode" {
+					uses[name].reads++
+					continue
+				}
+				// Encode: a full key (>=1 component) that flows into a Set/SetEntry/NewEntry call is a write
+				full := len(variadicElems(a[len(a)-1])) > 0
+				v := call.Value()
+				if v == nil || !full {
+					continue
+				}
+				isWrite := false
+				seen := map[ssa.Value]bool{}
+				work := []ssa.Value{v}
+				for len(work) > 0 && !isWrite {
+					x := work[len(work)-1]
+					work = work[:len(work)-1]
+					if seen[x] || x.Referrers() == nil {
+						continue
+					}
+					seen[x] = true
+					for _, r := range *x.Referrers() {
+						switch y := r.(type) {
+						case ssa.CallInstruction:
+							cn := calleeName(y)
+							if strings.HasSuffix(cn, ".Set") || strings.HasSuffix(cn, ".SetEntry") || strings.HasSuffix(cn, ".NewEntry") || strings.HasSuffix(cn, ".SetAt") {
+								isWrite = true
+							}
+							if cv := y.Value(); cv != nil && strings.HasSuffix(cn, ".NewEntry") {
+								work = append(work, cv)
+							}
+						case *ssa.Phi:
+							work = append(work, y)
+						case *ssa.ChangeType:
+							work = append(work, y)
+						case *ssa.Convert:
+							work = append(work, y)
+						case *ssa.Return:
+							// the key is handed back to the callers of this helper
+							for _, st := range ix.Calls[fname(y.Parent())] {
+								if cv := st.In.(ssa.CallInstruction).Value(); cv != nil {
+									work = append(work, cv)
+								}
+							}
+						case *ssa.Store:
+							if al, ok := y.Addr.(*ssa.Alloc); ok && al.Referrers() != nil {
+								for _, l := range *al.Referrers() {
+									if u, ok := l.(*ssa.UnOp); ok {
+										work = append(work, u)
+									}
+								}
+							}
+						}
+					}
+				}
+				if isWrite {
+					uses[name].writes++
+				} else {
+					uses[name].reads++ // Get/Delete/Seek by full key
+				}
+			}
+		}
+		sort.Strings(order)
+		for _, name := range order {
+			u := uses[name]
+			n++
+			c.Check(!(u.reads > 0 && u.writes == 0), "C12.keyfmt", name+":read-implies-written", u.pos, itoa(u.writes)+" store site(s), "+itoa(u.reads)+" read/delete/decode site(s)", "key format "+name+" is decoded / looked up / deleted at "+itoa(u.reads)+" site(s) but no code path stores a key of this format: the records its readers rely on (for the multipart node log: the list of nodes to remove when a restore is aborted or found half-done at start-up) never exist")
+		}
+	}
+	c.Floor("C12.keyfmt", n, 10, "key formats of the node databases")
 }
